@@ -25,6 +25,16 @@ CLAIMED = {
             'Trusted: CPython ast, engine/forms.py (flow-insensitive with block-local kills). Byte equality across backends and OS case behaviour are not claimed.',
             'static: string-form dataflow (normal-form agreement of index, lookup and folder-test operands) + shape rules for the chain',
             'DESIGN.md section 3, C19'),
+    'C14': ('other',
+            'Static rules on dmx.py: the type-code table is folded and the reader classification is evaluated on every (type, shape) code the writer can emit; '
+            'string-table formats per binary version are evaluated on both sides; token sequences (struct slots, NUL-terminated strings with their encoding, '
+            'fixed / per-type / length-prefixed byte runs, reference sentinels with what follows them) are extracted from parse_bin and export_binary under every '
+            '(version 1-5, value type, scalar/array) configuration and compared; converter tables (struct shared by both directions, arities, matrix cell positions); '
+            'KeyValues2 quoted slots escaped and encoded with the selected encoding, keyword agreement; stub construction sites carry the UUID; attribute count '
+            'criterion equals the skip criterion; KV1 bridge constants agree both ways.',
+            'Trusted: CPython ast, engine/fold.py, engine/wire.py (gate evaluator). Graph isomorphism, UUID fix-ups, float text precision and KV1 tree equality are not claimed.',
+            'static: folded code tables + per-configuration wire token extraction for reader and writer + quoted-slot escape lint',
+            'DESIGN.md section 3, C14'),
     'C13': ('other',
             'Static rules on vpk.py: CFG dominance of the writable-mode guard over every mutation of the file table / storage fields / archive files; '
             'wire agreement of the directory reader and writer (header and entry formats, entry slot -> FileInfo field linkage through the constructor, '
